@@ -37,7 +37,7 @@ import sys, os, re, json, time
 sys.path.insert(0, os.path.join(os.path.dirname(os.path.abspath(__file__)), "..", "lib"))
 from vlib import *
 from c10_util import *
-import c10_alias, c10_refs
+import c10_alias, c10_refs, c10_partial
 
 CLAUSES = {1: "translator saw a null table with a non-zero count", 2: "member type index out of range", 3: "tags / all_tags relation",
            4: "PER record of the type", 5: "OER record of the type", 6: "member records (PER/OER/tag_mode/flags)",
@@ -236,6 +236,13 @@ def match_finding(stage, job):
             return "C10-real-reference-constraint-value-type"
         if re.search(r"unknown type name .asn_(Native)?REAL_specifics_t|.asn_(Native)?REAL_specifics_t. does not name a type", blog) and "-fwide-types" in opts and REAL_REF_NARROWED.search(strip_comments(text)):
             return "C10-real-reference-narrowed-to-float"
+    if stage == "fatal":
+        fat = " ".join(job.get("fatal_lines", []) + job.get("error_directives", []))
+        t = strip_comments(text)
+        if re.search(r"Cannot compile", fat) and re.search(r"\bINSTANCE\s+OF\b", t):
+            return "C10-instance-of-member-error-directive"
+        if re.search(r"Cannot compile", fat) and re.search(r"[a-z][\w-]*\s+(?:\[[^\]]*\]\s*)?(EXTERNAL|EMBEDDED\s+PDV)\b", t):
+            return "C10-unsupported-useful-types-no-skeleton"
     if stage == "files-model":
         # model and C disagree on the per-type file names ONLY at parameterized types defined in two modules
         # (the templates are not run through asn1f_check_duplicate: no module prefix, both saved to one file)
@@ -377,6 +384,40 @@ def region_ties(run, res, known_ids):
                                                         "what": "asn1c exited 0 but the set of files it wrote is not self-contained", "problems": j["fileset"]})
 
 
+# ---------------------------------------------------------------- round 4: the status folding of the compile loop
+
+def fold_ties(run, res, known_ids):
+    """model (Fix/CompileFold.v: exit_status, top_fatals) vs asn1c (exit status, number of `FATAL: Cannot compile` lines) on the
+    modules of lib/c10_partial.py, and the Spec evaluated directly: a failing unit / specialization => non-zero exit"""
+    model = model_build()
+    js = [j for j in res if j["mod"].get("partial") and 0 <= j.get("rc", -1) < 124]
+    js = [j for j in js if not (j.get("name_clash") and "-fcompound-names" not in j["opts"])]     # another refusal path (c_name_clash), not this loop
+    if not js:
+        return
+    lines = ["c10_fold " + c10_partial.fold_tokens(j["mod"], j["opts"]) for j in js]
+    rc, out, err = run_lines(model, lines)
+    if rc != 0 or len(out) != len(lines):
+        raise RuntimeError("model driver failed (c10_fold): rc=%s lines=%d/%d %s" % (rc, len(out), len(lines), err))
+    for j, line, ans in zip(js, lines, out):
+        m, opts = j["mod"], j["opts"]
+        case = "%s %s" % (m["name"], " ".join(opts))
+        replay = {"module": m["text"], "module_name": m["name"], "options": list(opts), "refusal": m.get("refusal"), "position": m.get("position"),
+                  "replay_cmd": "asn1c -S <skeletons> -pdu=all %s %s.asn1" % (" ".join(opts), m["name"]), "asn1c_rc": j["rc"],
+                  "asn1c_stderr": "\n".join(l for l in j.get("stderr", "").split("\n") if l.startswith("FATAL"))[-800:], "model_cmd": line}
+        run.count("tie:compile-fold")
+        run.count("fold:%s:%s" % (m.get("position"), "fails" if c10_partial.any_fails(m, opts, components=False) else "compiles"))
+        got = "OK exit=%d fatals=%d" % (j["rc"], j.get("cannot_compile", 0))
+        spec_fail = c10_partial.any_fails(m, opts, components=False)
+        if ans != got:
+            run.violation("correspondence:CompileFold.exit_status", dict(replay, what="exit status / number of `Cannot compile` diagnostics of asn1c differ from the model of the compile loop",
+                                                                         model=ans, c=got), no_input=not (spec_fail and j["rc"] == 0))
+        if spec_fail and j["rc"] == 0:
+            run.violation("partial:failed-unit-but-exit-0", dict(replay, what="a unit (top-level type or specialization) the emitter refuses is part of the module, asn1c exits 0"))
+        if not c10_partial.any_fails(m, opts) and j["rc"] != 0:
+            run.count("partial:refused-although-no-known-refusal")
+            run.violation("asn1c:repaired-construct-refused", dict(replay, what="every unit of the module compiles under these options (the handled neighbours of the emitter's refusals), asn1c refuses it"))
+
+
 # ---------------------------------------------------------------- main
 
 def main(tier):
@@ -408,6 +449,12 @@ def main(tier):
     jobs = []
     root = os.path.join(scr, "jobs")
     for mi, m in enumerate(mods):
+        if tier == "quick" and m.get("optsets"):
+            # round 4 (partial emitter failures, string-literal content): the generator names the option sets of each module
+            for k, opts in enumerate(m["optsets"]):
+                jobs.append({"mod": m, "opts": tuple(opts), "oi": 100 + k, "dir": job_dir(root, m, 100 + k), "asn1c": asn1c, "skel": skel,
+                             "only_asn1c": False, "cleanup": True})
+            continue
         for oi, opts in enumerate(optsets):
             # thorough: asn1c runs under all 128 subsets for every module; the build + translator part runs for 16 of them
             # per module, rotating so that all subsets are built across the corpus
@@ -421,7 +468,7 @@ def main(tier):
             if tier == "quick" and m["origin"] == "grammar-refused" and oi != mi % 4:
                 continue        # refusals happen in the parser / fixer: one option set each
             # thorough: build + translator under 16 rotating subsets per module (6 for the region modules of round 2, which are many)
-            full = tier == "quick" or ((oi - 16 * mi) % 128) < (6 if m["origin"] in ("param", "multi", "grammar", "grammar-refused", "refs") else 16)
+            full = tier == "quick" or ((oi - 16 * mi) % 128) < (6 if m["origin"] in ("param", "multi", "grammar", "grammar-refused", "refs", "partial", "strlit") else 16)
             jobs.append({"mod": m, "opts": opts, "oi": oi, "dir": job_dir(root, m, oi), "asn1c": asn1c, "skel": skel,
                          "only_asn1c": not full, "cleanup": True})
     print("C10: %d jobs" % len(jobs), file=sys.stderr)
@@ -464,6 +511,24 @@ def main(tier):
                     run.violation("asn1c:repaired-construct-refused", dict(replay, what="asn1c refuses a construct that the repaired tree compiles (%s)" % m["accept"]))
             continue
         run.count("%s:accepted" % okey)
+        # (j) round 4: what asn1c itself calls fatal, or leaves as an #error directive in a generated file, with exit status 0
+        if j.get("fatal_lines") or j.get("error_directives"):
+            run.count("oracle:fatal-or-error-directive-with-exit-0")
+            kinds = (["fatal-diagnostic"] if j.get("fatal_lines") else []) + (["error-directive-in-output"] if j.get("error_directives") else [])
+            report("fatal", "asn1c:%s-but-exit-0" % "+".join(kinds),
+                   "asn1c printed a FATAL diagnostic / wrote an #error directive into a generated file, and exited with status 0",
+                   {"fatal_lines": j.get("fatal_lines"), "error_directives": j.get("error_directives")})
+        # (k) round 4: the emitted permitted-alphabet checkers against the octets of the literals
+        for cfile, fn, mode, prob in j.get("alpha", []):
+            run.count("alphabet-site:%s" % mode)
+            if prob:
+                fid = match_finding("alphabet", dict(j, alpha_prob=prob))
+                if fid and fid in known_ids:
+                    run.known_finding(fid, case)
+                    run.count("known:" + fid)
+                else:
+                    run.violation("alphabet:checker-differs-from-literal", dict(replay, what="asn1c exited 0; the permitted-alphabet checker it emitted does not admit exactly the octets of the FROM literal",
+                                                                                c_file=cfile, function=fn, mode=mode, problem=prob, latin1=True))
         if j.get("only_asn1c"):
             continue
         # (b) emitted sources compile and link the way converter-example.mk does it; headers are valid C++
@@ -531,6 +596,11 @@ def main(tier):
     # ---- round 2: the file set and the specialization indices, model vs C and the oracle on the C output alone
     try:
         region_ties(run, res, known_ids)
+    except RuntimeError as e:
+        run.violation("model:modeldrv", {"what": str(e)[-1500:]}, no_input=True)
+
+    try:
+        fold_ties(run, res, known_ids)
     except RuntimeError as e:
         run.violation("model:modeldrv", {"what": str(e)[-1500:]}, no_input=True)
 
